@@ -64,4 +64,12 @@ def run(ctx):
     ctx.evaluations = len(evs)
     for e in evs[:2]:
         ctx.sample({"doc": dc.doc_text(e["doc"])[:400], "ok": e["out"]["ok"]})
+    if not quick:
+        # the repository's own 3592 tests as a trace source (recording plugin, no repository edits)
+        import recorded
+        rec = recorded.record(ctx, "doc")
+        for e in rec:
+            e["id"] = "repo-" + e["id"]
+        evs += rec
+        ctx.evaluations = len(evs)
     dc.judge(ctx, evs)
